@@ -869,6 +869,12 @@ where
         - ulogp.clone()
         - ((mom_prime.clone() * mom_prime).sum() - (mom.clone() * mom.clone()).sum()) * half;
     let mut log_accept_prob = T::from(log_accept_prob.into_scalar().to_f64()).unwrap();
+    // A trial point whose log-density is undefined (NaN: outside the support of a target written
+    // with `ln`, `sqrt`, ...) has density zero: it is never accepted. NaN would make every
+    // comparison below false and end the search at a step size that leaves the support.
+    if log_accept_prob.is_nan() {
+        log_accept_prob = T::neg_infinity();
+    }
 
     let a = if log_accept_prob > half.ln() {
         T::one()
@@ -902,6 +908,9 @@ where
                 .to_f64(),
         )
         .unwrap();
+        if log_accept_prob.is_nan() {
+            log_accept_prob = T::neg_infinity();
+        }
     }
 
     epsilon
